@@ -297,11 +297,12 @@ func (cf *compactFlusher) StreamWriter() (table.StreamWriter, error) {
 	if err := cf.beforeAdd(); err != nil {
 		return nil, err
 	}
-	sw := cf.compactJob.state.builder.StreamWriter()
+	builder := cf.compactJob.state.builder
 	// hooks stream writer with compaction processing checkers
 	cf.streamWriter = &compactFlusherStreamWriter{
 		compactFlusher: cf,
-		StreamWriter:   sw,
+		builder:        builder,
+		StreamWriter:   builder.StreamWriter(),
 	}
 	return cf.streamWriter, nil
 }
@@ -362,11 +363,38 @@ func (cf *compactFlusher) Release() {
 // compactFlusherStreamWriter wraps stream writer with write check
 type compactFlusherStreamWriter struct {
 	compactFlusher *compactFlusher
+	builder        table.Builder // builder which the wrapped stream writer belongs to
+	err            error         // error of opening new output file when prepare
 	table.StreamWriter
+}
+
+// Prepare prepares writing the key into current output file.
+// NOTE: merger gets stream writer only once, but the output file is closed when it is big enough(Commit),
+// so need open next output file and use its stream writer, else writes data into the closed file.
+func (cfsw *compactFlusherStreamWriter) Prepare(key uint32) {
+	if cfsw.err = cfsw.compactFlusher.beforeAdd(); cfsw.err != nil {
+		return
+	}
+	if builder := cfsw.compactFlusher.compactJob.state.builder; builder != cfsw.builder {
+		cfsw.builder = builder
+		cfsw.StreamWriter = builder.StreamWriter()
+	}
+	cfsw.StreamWriter.Prepare(key)
+}
+
+// Write writes data into current output file.
+func (cfsw *compactFlusherStreamWriter) Write(data []byte) (int, error) {
+	if cfsw.err != nil {
+		return 0, cfsw.err
+	}
+	return cfsw.StreamWriter.Write(data)
 }
 
 // Commit checks if build's file if it is big enough
 func (cfsw *compactFlusherStreamWriter) Commit() error {
+	if cfsw.err != nil {
+		return cfsw.err
+	}
 	// table's StreamWriter Commit won't raise error
 	_ = cfsw.StreamWriter.Commit()
 	return cfsw.compactFlusher.afterAdd()
